@@ -287,6 +287,10 @@ def parts_b_c(r: core.Run, tier: str, seed: int) -> None:
             for scope in ("response_keys", "object_fields", "variables", "input_fields", "operations", "enum_values"):
                 ccases.append({"pair": list(pair), "scope": scope, "snake": snake, "kind": "pair"})
 
+    # two variables that stay different names after the mapping, one of which is what a method local is renamed to when the other takes its name
+    for pair in (("query", "_query"), ("variables", "_variables"), ("response", "_response"), ("data", "_data"), ("_query", "query"), ("_data", "data")):
+        ccases.append({"pair": list(pair), "scope": "variables", "snake": False, "kind": "pair", "local_rename": True})
+
     # single names in each scope, next to an unrelated partner: the wire name must stay, the value must arrive (names that meet a method local or a
     # reserved word only after the mapping are the interesting ones)
     singles = ["Query", "QUERY", "_query", "query_", "Variables", "_variables", "Data", "DATA", "Response", "response_", "operationName", "OperationName",
